@@ -618,6 +618,23 @@ func runTok(sw *shardWriter, j *jb, data []byte, st *genStats) {
 		j.raw(`,"rn":`)
 		j.ints([]int{b2i(err == nil), p})
 	})
+	// TokenType.String for the type just reported and for the raw value of the first byte (any of the 256 values)
+	guardPanic(&panics, func() {
+		t, _, _ := rjson.NextTokenType(data)
+		raw := 0
+		if len(data) > 0 {
+			raw = int(data[0])
+		}
+		j.raw(`,"tn":[{"t":`)
+		j.int(int(t))
+		j.raw(`,"s":`)
+		j.str(t.String())
+		j.raw(`},{"t":`)
+		j.int(raw)
+		j.raw(`,"s":`)
+		j.str(rjson.TokenType(raw).String())
+		j.raw(`}]`)
+	})
 	j.raw(`,"ex":[`)
 	first := true
 	ex := func(class int, fn func() error) {
